@@ -232,10 +232,10 @@ def check_cases(chk, cases, replay=False):
             flavour = flavour + (" resolver, decision cache on, every request twice" if cache else "")
             want_seen = sorted(set(expect) & set(universe))
             if seen != want_seen:
-                chk.violation(f"conditions do not see exactly the expanded roles ({flavour} resolver)",
+                chk.violation(f"conditions do not see exactly the expanded roles ({flavour} resolver; theorems c18_engine_roles/c18_has_any/c18_has_all/c18_contains/c18_in)",
                               {**c, "engine": True}, impl=seen, model=want_seen)
             if any(a != expect for a in audit):
-                chk.violation(f"audit payload roles differ from the expanded roles ({flavour} resolver)",
+                chk.violation(f"audit payload roles differ from the expanded roles ({flavour} resolver; theorem c18_audit_roles)",
                               {**c, "engine": True}, impl=audit[:2], model=expect)
 
 
